@@ -923,3 +923,25 @@ silent("c16-paramfields-literal", "C16",
 		newMinter.EndTime = oldMinter.EndTime
 """, """		newMinter := types.Minter{SequenceId: oldMinter.SequenceId, EndTime: oldMinter.EndTime}
 """))
+
+# ---------------- round 4: the inflow is never dropped; persist always follows the transfer ----------------
+DISTGO = "x/cfedistributor/keeper/distribution.go"
+fire("c03-conserve-skip-small-inflow-in-block-routine", ["C03", "C04"], ["C03.conserve", "C04.conserve"],
+     ("x/cfedistributor/abci.go", "		if allCoinsToDistribute.IsZero() {\n			continue\n		}", "		if allCoinsToDistribute.IsZero() || len(allCoinsToDistribute) > 3 {\n			continue\n		}"))
+silent("c03-conserve-zero-test-named", ["C03", "C04"],
+       ("x/cfedistributor/abci.go", "		if allCoinsToDistribute.IsZero() {\n			continue\n		}", "		if nothing := allCoinsToDistribute.IsZero(); nothing {\n			continue\n		}"))
+fire("c03-conserve-early-return-in-routine", ["C03", "C04"], ["C03.conserve", "C04.conserve"],
+     (DISTGO, "	localRemains = states\n", "	localRemains = states\n	if len(coinsToDistributeDec) > 3 {\n		return\n	}\n"))
+VESTGO = "x/cfevesting/keeper/vesting.go"
+fire("c05-pair-persist-skipped-for-large-amount", ["C05", "C06"], ["C05.pair", "C06.once"],
+     (VESTGO, """	k.SetAccountVestingPools(ctx, accVestingPools)
+	k.Logger(ctx).Debug("set account vesting pools", "ownerAddress", accVestingPools.Owner, "newVestingPools", accVestingPools.VestingPools)""", """	if toWithdraw.IsInt64() {
+		k.SetAccountVestingPools(ctx, accVestingPools)
+	}
+	k.Logger(ctx).Debug("set account vesting pools", "ownerAddress", accVestingPools.Owner, "newVestingPools", accVestingPools.VestingPools)"""))
+silent("c05-pair-persist-only-when-paid", ["C05", "C06"],
+       (VESTGO, """	k.SetAccountVestingPools(ctx, accVestingPools)
+	k.Logger(ctx).Debug("set account vesting pools", "ownerAddress", accVestingPools.Owner, "newVestingPools", accVestingPools.VestingPools)""", """	if toWithdraw.IsPositive() {
+		k.SetAccountVestingPools(ctx, accVestingPools)
+	}
+	k.Logger(ctx).Debug("set account vesting pools", "ownerAddress", accVestingPools.Owner, "newVestingPools", accVestingPools.VestingPools)"""))
